@@ -12,11 +12,31 @@ def wire_bodies(F):
 def run(ctx):
     F, R = ctx.facts, ctx.report
     R.explanation = ("ORD-1 byte-order discipline of every numeric wire primitive reference; WIRE: the serialised layout of every well-formed argument shape, payload kind, header and of the whole message equals the DLT layout (field order, widths, byte-order class, source field, length-prefix arithmetic); "
-                     "CONS/ORDER/HINT: every Ok exit of the parser returns input[A+L..] and requires the whole declared message, Incomplete hints never exceed the shortfall - bytes behind the message do not influence the result.")
+                     "TAB: message-info, header-type, type-info and control-id code tables decode and re-encode consistently; CONS/ORDER/HINT: every Ok exit of the parser returns input[A+L..] and requires the whole declared message, Incomplete hints never exceed the shortfall - bytes behind the message do not influence the result.")
     R.not_decided = ["equality of field values through nom/byteorder/String conversions (trusted library semantics)", "the round-trip equality itself (runtime values)"]
     n = lib_ord.check(ctx, wire_bodies(F), "ORD-1", PAIRED)
     R.floor("ORD-1", 90)
     wire_and_consumption(ctx)
+    code_tables(ctx)
+
+
+def code_tables(ctx):
+    """TAB: every code table the wire format uses (message info, header type, type info, control service id) is
+    decoded and re-encoded consistently — a value the writer can emit that the reader maps to a different value breaks
+    the round trip (shared with C02 / C14 / C16)."""
+    from rules import lib_codes
+    R = ctx.report
+    lib_codes.check_msin(ctx)
+    R.floor("TAB-MSIN.row", 20)
+    lib_codes.check_msin_compose(ctx)
+    lib_codes.check_htyp(ctx)
+    R.floor("TAB-HTYP.row", 24)
+    lib_codes.check_typeinfo(ctx)
+    R.floor("TAB-TI.row", 60)
+    lib_codes.check_ctrl_id(ctx)
+    from rules import lib_wirep
+    lib_wirep.check_payload_dispatch(ctx)
+    R.floor("WIRE-PD", 6)
 
 
 def wire_and_consumption(ctx, cons=True):
